@@ -137,6 +137,7 @@ class _N(float):
 
 class C12(object):
     id = 'C12'
+    anchors = ('Term.__init__', 'Equation.AddTerm', 'Term.__str__', 'Equation.GetRightHandSide', 'create_equation_from_terms')
     title = 'Equation-building arithmetic preserves value'
     rule = ('cases are batches of %d histories: an Equation built with no lead / empty list / opaque (blob) '
             'lead / string rhs / a lead spelled like a later term, followed by 0-30 AddTerm calls over signed, '
